@@ -311,7 +311,92 @@ pub fn probe_unaligned(bytes: &[u8]) -> (Vec<Option<bool>>, Option<String>) {
 }
 
 /// C20: nothing panics.
+// ------------------------------------------ C20: the environment of the call
+
+#[repr(C)]
+struct Rlimit {
+    cur: u64,
+    max: u64,
+}
+extern "C" {
+    fn getrlimit(resource: i32, rlim: *mut Rlimit) -> i32;
+    fn setrlimit(resource: i32, rlim: *const Rlimit) -> i32;
+}
+const RLIMIT_AS: i32 = 9;
+
+/// The body of `fstsim c20-env <mode>`: the bytes arrive on stdin.
+/// mode "stack": open + accessors + verify on a thread with a 256 KiB stack.
+/// mode "starved": the same on the main thread while the address space of
+/// the process may grow by 1 MiB only (no room for a new thread's stack or a
+/// large buffer: allocation and thread creation fail).
+/// Prints "OK ..." or "PANIC <message>"; dying is the third outcome.
+pub fn env_child(mode: &str, input: Vec<u8>) -> String {
+    let show = |p: &Probe| match &p.panic {
+        Some(m) => format!("PANIC {}", m.replace('\n', " ")),
+        None => format!("OK opened={} verify={:?}", p.opened, p.verify_ok),
+    };
+    if mode == "stack" {
+        let h = std::thread::Builder::new().stack_size(256 << 10).spawn(move || probe(&input)).expect("harness: spawn");
+        return match h.join() {
+            Ok(p) => show(&p),
+            Err(_) => "PANIC (thread died)".to_string(),
+        };
+    }
+    let vm_pages: u64 = std::fs::read_to_string("/proc/self/statm")
+        .ok()
+        .and_then(|s| s.split_whitespace().next().and_then(|x| x.parse().ok()))
+        .unwrap_or(0);
+    if vm_pages > 0 {
+        let mut old = Rlimit { cur: 0, max: 0 };
+        unsafe {
+            if getrlimit(RLIMIT_AS, &mut old) == 0 {
+                let lim = Rlimit { cur: std::cmp::min(old.cur, vm_pages * 4096 + (1 << 20)), max: old.max };
+                setrlimit(RLIMIT_AS, &lim);
+            }
+        }
+    }
+    let p = probe(&input);
+    show(&p)
+}
+
+fn env_probe(bytes: &[u8]) -> Option<String> {
+    use std::io::{Read, Write};
+    use std::process::{Command, Stdio};
+    for mode in ["stack", "starved"] {
+        let exe = std::env::current_exe().expect("harness: current_exe");
+        let mut child = Command::new(exe)
+            .args(["c20-env", mode])
+            .stdin(Stdio::piped())
+            .stdout(Stdio::piped())
+            .stderr(Stdio::null())
+            .spawn()
+            .expect("harness: spawn c20-env");
+        let mut stdin = child.stdin.take().expect("harness: stdin");
+        let _ = stdin.write_all(bytes);
+        drop(stdin);
+        let mut out = String::new();
+        let _ = child.stdout.take().expect("harness: stdout").read_to_string(&mut out);
+        let st = child.wait().expect("harness: wait");
+        let what = if mode == "stack" { "on a thread with a 256 KiB stack" } else { "in a process that cannot grow its address space (no new thread, no large buffer)" };
+        if !st.success() {
+            return Some(format!("the process died ({}) during open + accessors + verify {}", st, what));
+        }
+        if let Some(m) = out.trim().strip_prefix("PANIC ") {
+            return Some(format!("{} {}", m, what));
+        }
+    }
+    None
+}
+
 pub fn check_c20_bytes(bytes: &[u8]) -> Option<Violation> {
+    if bytes.len() >= (4 << 20) - 16 {
+        if let Some(m) = env_probe(bytes) {
+            return Some(Violation {
+                oracle: "C20.panic_in_open_accessors_or_verify".into(),
+                observed: format!("{} on {} bytes", m, bytes.len()),
+            });
+        }
+    }
     if bytes.len() >= 4096 {
         let (_, p) = probe_unaligned(bytes);
         if let Some(m) = p {
